@@ -1630,3 +1630,86 @@ c08_cutpoint!(c08_cutpoint_mom, true, false, true);
 c08_cutpoint!(c08_cutpoint_mmo, true, true, false);
 c08_cutpoint!(c08_cutpoint_omm, false, true, true);
 c08_cutpoint!(c08_cutpoint_mmm, true, true, true);
+
+// C09 / C02: the scheduler's planner (a second implementation of the same plan) -- dry run: same plan as the reference,
+// no decision frame, no job frame.
+fn stub_append_schedule_decided_unreachable(
+    _this: &ContinuityStore,
+    _id: &str,
+    payload: CompactionAutoScheduleDecidedPayload,
+) -> Result<String, String> {
+    core::mem::forget(payload);
+    assert!(false, "a scheduler dry run appended a decision frame");
+    Ok(String::new())
+}
+
+#[kani::proof]
+#[kani::unwind(6)]
+#[kani::stub(std::fmt::format, stub_fmt_format)]
+#[kani::stub(std::hash::RandomState::new, stub_random_state_new)]
+#[kani::stub(uuid::Uuid::new_v4, stub_uuid_v4)]
+#[kani::stub(alloc::string::ToString::to_string, stub_to_string_empty)]
+#[kani::stub(ContinuityStore::compaction_cut_points_v1, stub_cut_points_two)]
+#[kani::stub(ContinuityStore::append_job_spawned, stub_append_job_spawned_unreachable)]
+#[kani::stub(ContinuityStore::append_compaction_auto_schedule_decided, stub_append_schedule_decided_unreachable)]
+#[kani::stub(ContinuityStore::find_inflight_compaction_job_id_best_effort_v1, stub_find_inflight_none)]
+#[kani::stub(serde_json::to_value, stub_to_value_null)]
+fn c09_schedule_plan_dry_run() {
+    let ctx = PlanCtx { already0: kani::any(), already1: kani::any() };
+    let stride: u64 = kani::any();
+    let max_raw: u32 = kani::any();
+    let max_new: Option<u32> = if kani::any() { Some(max_raw) } else { None };
+    let store = kani_store();
+    let r = store.compaction_auto_schedule_spawn_job_v1(
+        plan_ctx_id(&ctx),
+        CompactionAutoScheduleV1Request {
+            stride_messages: Some(stride),
+            max_new_checkpoints: max_new,
+            block_on_inflight: if kani::any() { Some(kani::any()) } else { None },
+            execute: if kani::any() { Some(kani::any()) } else { None },
+            dry_run: Some(true),
+            actor_id: lit("u"),
+            origin: lit("o"),
+        },
+    );
+    match &r {
+        Err(_) => assert!(stride == 0, "scheduler refused although the stride is valid"),
+        Ok(resp) => {
+            assert!(stride != 0, "stride 0 accepted");
+            assert!(resp.decision_id.is_none() && resp.job_id.is_none(), "a dry run handed out a decision / job id");
+            let cap = match max_new { None => 1u64, Some(m) => if m < 1 { 1 } else if m > 32 { 32 } else { m as u64 } };
+            let mut want: [u64; 2] = [0, 0];
+            let mut nw = 0usize;
+            if !ctx.already0 && (nw as u64) < cap { want[nw] = 4; nw += 1; }
+            if !ctx.already1 && (nw as u64) < cap { want[nw] = 2; nw += 1; }
+            assert!(resp.planned.len() == nw, "scheduler plan does not hold the first max_new not-yet-checkpointed cut points");
+            let mut j = 0;
+            while j < nw {
+                assert!(resp.planned[j].target_message_ordinal == want[j], "scheduler plan order / content differs from the reference plan");
+                j += 1;
+            }
+            kani::cover!(nw == 2, "two cut points planned");
+            kani::cover!(nw == 0, "nothing to plan");
+        }
+    }
+    core::mem::forget(r);
+}
+
+// C04: the fifth tail-window loop (input of context compilation) also terminates under an adversarial cache.
+fn stub_seek_window_none(_this: &ContinuityStreamCache, _id: &str, _anchor: &str, _limit: usize) -> io::Result<Option<ContinuityWindow>> {
+    Ok(None)
+}
+#[kani::proof]
+#[kani::unwind(8)]
+#[kani::stub(std::fmt::format, stub_fmt_format)]
+#[kani::stub(std::hash::RandomState::new, stub_random_state_new)]
+#[kani::stub(ContinuityStreamCache::scan_tail_messages_runs_v1, stub_scan_some)]
+#[kani::stub(ContinuityStreamCache::try_read_last_seq, stub_last_seq_absent)]
+#[kani::stub(ContinuityStreamCache::window_recent_messages_v1_from_message_id, stub_seek_window_none)]
+#[kani::stub(ContinuityStore::replay_events, stub_replay_events_empty)]
+fn c04_term_compile_input_some() {
+    let store = kani_store();
+    let r = store.load_context_compile_input_recent_messages_v1("t", "m");
+    kani::cover!(r.is_err(), "empty thread reported");
+    core::mem::forget(r);
+}
